@@ -342,6 +342,18 @@ fn run(ctx: &mut Ctx) {
         judge(ctx, &Expr::Map((0..n).map(|i| (format!("k{i}"), Expr::value(i as i128))).collect()), "long-lists-and-maps", &mut rng);
         judge(ctx, &Expr::func("fun", Expr::Vec((0..n).map(|i| Expr::Vec(vec![Expr::value(i as i128)])).collect())), "long-lists-and-maps", &mut rng);
     }
+    // 1e. long strings with multi-byte characters at and around every power-of-two byte offset (a rendering that works in blocks must not split them)
+    for b in [64usize, 256, 1_024, 4_096, 8_192, 16_384, 32_768, 65_536, 131_072] {
+        for pad in b - 4..=b + 1 {
+            if !ctx.mine() {
+                continue;
+            }
+            for filler in ["é€😀", "\\\"", "\n\u{7f}é"] {
+                let s = format!("{}{filler}{}{filler}", "a".repeat(pad), "b".repeat(b / 2 + 3));
+                judge(ctx, &Expr::Value(Value::String(s)), "long-strings-with-multibyte-characters-at-block-boundaries", &mut rng);
+            }
+        }
+    }
     // 2. every composite kind in every child slot of every composite kind
     for outer in &comps {
         for slot in 0..arity(outer) {
